@@ -100,6 +100,15 @@ fn programs() -> Vec<Prog> {
             next: vec![8, 2, 3, 4, 5, 6, 7, 8, 9, 9],
             step_out: vec![None, Some(8), Some(8), None, None, None, Some(8), Some(8), None, None],
         },
+        // code in two files (the subroutine is imported): breakpoints are set per file
+        Prog {
+            name: "two-files",
+            source: ".test \"t\" {\njsr s\ninx\nbrk\n}\n.import s from \"lib.asm\"\n",
+            lines: vec![2, 3, 4],
+            x: vec![0, 0, 1],
+            next: vec![1, 2, 2],
+            step_out: vec![None; 3],
+        },
         // a subroutine that calls itself: `next` over the inner call and `stepOut` end where *this* level continues, not
         // where a deeper level passes the same address first
         Prog {
@@ -197,7 +206,12 @@ enum Step {
     Continues,
     /// `stepIn` from the breakpoint to the end of the test, checking every stop
     Walk,
+    /// (program `two-files` only) one breakpoint in main.asm and one in the imported file, set by two requests - the
+    /// one for main.asm first (true) or second (false); both have to stop the machine
+    TwoFiles(bool),
 }
+
+const LIB_ASM: &str = "s:\niny\nrts\n";
 
 /// One scenario: breakpoint at executed-position `bp_idx`, then one step of the given kind.
 fn scenario(bin: &str, dir: &Path, port: u16, p: &Prog, bp_idx: usize, step: Option<Step>) -> Vec<(String, String)> {
@@ -205,6 +219,9 @@ fn scenario(bin: &str, dir: &Path, port: u16, p: &Prog, bp_idx: usize, step: Opt
     let _ = std::fs::remove_dir_all(dir);
     std::fs::create_dir_all(dir).unwrap();
     std::fs::write(dir.join("main.asm"), p.source).unwrap();
+    if p.name == "two-files" {
+        std::fs::write(dir.join("lib.asm"), LIB_ASM).unwrap();
+    }
     std::fs::write(dir.join("mos.toml"), "[build]\nentry = \"main.asm\"\n").unwrap();
     let mut child = match Command::new(bin)
         .args(["lsp", "-p", &port.to_string()])
@@ -261,6 +278,59 @@ fn scenario(bin: &str, dir: &Path, port: u16, p: &Prog, bp_idx: usize, step: Opt
     ok &= dap
         .request("launch", json!({"workspace": dir.display().to_string(), "testRunner": {"testCaseName": "t"}}))
         .map_or(false, |r| r["success"] == true);
+    if let Some(Step::TwoFiles(main_first)) = step {
+        let lib_path = dir.join("lib.asm").display().to_string();
+        let set = |dap: &mut Dap, path: &str, line: usize| {
+            dap.request("setBreakpoints", json!({"source": {"path": path}, "breakpoints": [{"line": line}]})).is_some()
+        };
+        if main_first {
+            ok &= set(&mut dap, &main_path, 3);
+            ok &= set(&mut dap, &lib_path, 2);
+        } else {
+            ok &= set(&mut dap, &lib_path, 2);
+            ok &= set(&mut dap, &main_path, 3);
+        }
+        ok &= dap.request("configurationDone", Value::Null).is_some();
+        if !ok {
+            let _ = child.kill();
+            let _ = child.wait();
+            return vec![("machinery:setup".into(), "session setup failed".into())];
+        }
+        // `iny` in lib.asm is executed before `inx` in main.asm
+        for (n, (file, line)) in [("lib.asm", 2i64), ("main.asm", 3i64)].iter().enumerate() {
+            if !dap.event("stopped") {
+                problems.push(("dap:breakpoints-in-two-files:no-stopped-event".to_string(), format!("breakpoints on main.asm:3 and lib.asm:2 (set by two requests, main.asm {}): no stop at {}:{}", if main_first { "first" } else { "second" }, file, line)));
+                break;
+            }
+            let r = dap.request("stackTrace", json!({"threadId": 1}));
+            let got_line = r.as_ref().and_then(|r| r["body"]["stackFrames"][0]["line"].as_i64());
+            let got_file = r.as_ref().and_then(|r| r["body"]["stackFrames"][0]["source"]["path"].as_str().map(|s| s.to_string())).unwrap_or_default();
+            if got_line != Some(*line) || !got_file.ends_with(file) {
+                problems.push(("dap:breakpoints-in-two-files:wrong-stop".to_string(), format!("breakpoints on main.asm:3 and lib.asm:2 (main.asm set {}): stop #{} must be at {}:{} but stackTrace reports {}:{:?}", if main_first { "first" } else { "second" }, n + 1, file, line, got_file, got_line)));
+                break;
+            }
+            let _ = dap.request("continue", json!({"threadId": 1}));
+        }
+        if problems.is_empty() && !dap.event("terminated") {
+            problems.push(("dap:continue:no-terminated-event".to_string(), "two-files: the test did not run to its end".to_string()));
+        }
+        let _ = dap.request("disconnect", json!({}));
+        drop(dap);
+        send_lsp(json!({"jsonrpc": "2.0", "id": 9, "method": "shutdown", "params": null}));
+        let _ = wait_for(&lsp_rx, |v| v["id"] == 9, 2000);
+        send_lsp(json!({"jsonrpc": "2.0", "method": "exit", "params": null}));
+        let start = Instant::now();
+        while child.try_wait().ok().flatten().is_none() {
+            if start.elapsed() > Duration::from_secs(3) {
+                let _ = child.kill();
+                let _ = child.wait();
+                break;
+            }
+            std::thread::sleep(Duration::from_millis(5));
+        }
+        let _ = std::fs::remove_dir_all(dir);
+        return problems;
+    }
     let bp_line = p.lines[bp_idx];
     // a breakpoint inside a loop is hit at the first execution of that line
     let first_idx = p.lines.iter().position(|l| *l == bp_line).unwrap();
@@ -341,7 +411,7 @@ fn scenario(bin: &str, dir: &Path, port: u16, p: &Prog, bp_idx: usize, step: Opt
                 Step::StepIn => ("stepIn", Some((from + 1).min(p.lines.len() - 1))),
                 Step::Next => ("next", Some(p.next[from])),
                 Step::StepOut => ("stepOut", p.step_out[from]),
-                Step::Continues | Step::Walk => unreachable!(),
+                Step::Continues | Step::Walk | Step::TwoFiles(_) => unreachable!(),
             };
             let target = if reached { target } else { None };
             // the last position is the BRK: stepping it ends the test
@@ -409,6 +479,12 @@ pub fn conformance(ctx: &Ctx) -> u64 {
     let progs = programs();
     let mut work = vec![];
     for (pi, p) in progs.iter().enumerate() {
+        if p.name == "two-files" {
+            work.push((pi, 0, Some(Step::TwoFiles(true))));
+            work.push((pi, 0, Some(Step::TwoFiles(false))));
+            // (its `lines` only describe main.asm: the other session kinds are for the one-file programs)
+            continue;
+        }
         for idx in 0..p.lines.len() {
             // the first visit of a line: all session kinds; a later visit: the single steps from there
             let first_visit = p.lines.iter().position(|l| *l == p.lines[idx]) == Some(idx);
